@@ -29,6 +29,7 @@ type world struct {
 	inWindow  [maxTasks]bool
 	lastCount [maxTasks]int64 // unused
 	seen      int64           // stub invocations seen so far (size of stub.count)
+	real      bool            // export files are real gc export data
 }
 
 func pkgName(i int) string { return fmt.Sprintf("w/p%d", i) }
@@ -42,7 +43,7 @@ func pkgIndex(name string) int {
 
 //go:norace
 func (w *world) snapshot() *cw.World {
-	s := &cw.World{Faults: map[int]string{}}
+	s := &cw.World{Faults: map[int]string{}, Real: w.real}
 	for i := 0; i < w.n; i++ {
 		s.Pkgs = append(s.Pkgs, cw.Pkg{Name: pkgName(i), Ver: w.ver[i], Deps: w.deps[i]})
 		s.Untracked = append(s.Untracked, w.untracked[i])
